@@ -59,7 +59,7 @@ class ClassDecl:
 class Contract:
     def __init__(self, key, params=None, returns=None, requires=(), ensures=(), raises=None,
                  modifies=(), loops=None, ghost_entry=(), ghost_exit=(), external=False, tags=(),
-                 locals=None, doc="", pure=False, handler=None, allow_escape=(), assume_on_entry=(), ghost_after=None, ghost_results=None, yield_raises=False, ctype_model=None, prelude=None):
+                 locals=None, doc="", pure=False, handler=None, allow_escape=(), assume_on_entry=(), ghost_after=None, ghost_results=None, yield_raises=False, ctype_model=None, prelude=None, reveal=()):
         self.key = key
         self.params = {k: parse_type(v) for k, v in (params or {}).items()}
         self.returns = parse_type(returns) if returns else None
@@ -83,6 +83,7 @@ class Contract:
         self.assume_on_entry = _clauses(assume_on_entry, self.tags)
         self.yield_raises = yield_raises
         self.ctype_model = ctype_model
+        self.reveal = tuple(reveal)
         self.prelude = prelude          # key of an external contract applied at every call site BEFORE the requires (interference of another thread)
         self.ghost_results = {k: parse_type(v) for k, v in (ghost_results or {}).items()}
         # ghost statements run after the normal return of a call to the named callee inside this function
@@ -155,8 +156,10 @@ class Registry:
         self.contracts[qualname] = c
         return c
 
-    def define(self, name, params, body, doc=""):
+    def define(self, name, params, body, doc="", opaque=False):
         self.specfuncs[name] = SpecFunc(name, params, body, doc)
+        # an opaque predicate over values is an uninterpreted symbol in every function whose contract does not `reveal` it (callers carry it, they do not unfold it)
+        self.specfuncs[name].opaque = opaque
 
     def mark_inline(self, *keys):
         for k in keys:
